@@ -198,6 +198,7 @@ type scenario struct {
 	senders [][]spec
 	seed    uint64
 	hot     bool
+	flood   bool
 }
 
 func drawScenario(rt *rapid.T, small bool) scenario {
@@ -218,6 +219,27 @@ func drawScenario(rt *rapid.T, small bool) scenario {
 	hot := !small && g >= 2 && rapid.IntRange(0, 2).Draw(rt, "hot") == 0
 	hotDir, hotTopic := rapid.IntRange(0, 1).Draw(rt, "hotdir"), rapid.SampledFrom(p2psim.AppTopics).Draw(rt, "hottopic")
 	sc.hot = hot
+	// flood mode: several senders keep ONE stream's send queue (1000 slots) full with single-packet messages while another
+	// sender pushes multi-packet messages through the same stream: a single-packet message that slips between two packets of
+	// a large one is delivered merged / truncates the large one
+	if !small && !hot && rapid.IntRange(0, 5).Draw(rt, "flood") == 0 {
+		sc.flood = true
+		var big []spec
+		for j, n := 0, rapid.IntRange(2, 4).Draw(rt, "floodbig"); j < n; j++ {
+			stream++
+			big = append(big, spec{dir: hotDir, topic: hotTopic, size: rapid.SampledFrom([]int{B + 1, 2*B + 1, 3 * B}).Draw(rt, "floodbigsize"), stream: stream})
+		}
+		sc.senders = append(sc.senders, big)
+		for i, n := 0, rapid.IntRange(3, 5).Draw(rt, "floodsenders"); i < n; i++ {
+			var list []spec
+			for j, m := 0, rapid.IntRange(300, 600).Draw(rt, "floodmsgs"); j < m; j++ {
+				stream++
+				list = append(list, spec{dir: hotDir, topic: hotTopic, size: 16 + j%64, stream: stream})
+			}
+			sc.senders = append(sc.senders, list)
+		}
+		return sc
+	}
 	for i := 0; i < g; i++ {
 		var list []spec
 		for j, n := 0, rapid.IntRange(1, 4).Draw(rt, "msgs"); j < n; j++ {
@@ -344,7 +366,9 @@ func runConcurrent(rt *rapid.T, rec *ev.Rec, small bool, src nodeSource) {
 			if len(bz) > p2psim.MaxDataChunk {
 				multi++
 			}
-			c.Desc("g%d:%s", i, s)
+			if !sc.flood || len(list) < 10 {
+				c.Desc("g%d:%s", i, s)
+			}
 		}
 		plan = append(plan, o)
 	}
@@ -364,13 +388,6 @@ func runConcurrent(rt *rapid.T, rec *ev.Rec, small bool, src nodeSource) {
 			}
 		}(list)
 	}
-	close(start)
-	wg.Wait()
-	select {
-	case e := <-errc:
-		rt.Fatalf("%v", e)
-	default:
-	}
 	// everything that arrives must be something that was sent (direction d arrives at node 1-d)
 	collect := func() string {
 		for d := 0; d < 2; d++ {
@@ -383,6 +400,40 @@ func runConcurrent(rt *rapid.T, rec *ev.Rec, small bool, src nodeSource) {
 		return ""
 	}
 	var viol string
+	// flood mode puts more messages in flight than an inbox holds (1000, the newest is dropped when full): drain while sending
+	stopDrain, drained := make(chan struct{}), make(chan struct{})
+	go func() {
+		defer close(drained)
+		if !sc.flood {
+			return
+		}
+		for {
+			select {
+			case <-stopDrain:
+				return
+			default:
+			}
+			if viol == "" {
+				viol = collect()
+			}
+			time.Sleep(time.Millisecond)
+		}
+	}()
+	close(start)
+	wg.Wait()
+	if sc.flood {
+		time.Sleep(300 * time.Millisecond) // the per-message goroutines of PeerSet.send are still queueing
+	}
+	close(stopDrain)
+	<-drained
+	select {
+	case e := <-errc:
+		rt.Fatalf("%v", e)
+	default:
+	}
+	if viol != "" {
+		rt.Fatalf("%s\nscenario: %s", viol, c.Descriptor())
+	}
 	ok := p2psim.WaitFor(deliverBudget, func() bool {
 		if viol = collect(); viol != "" {
 			return true
@@ -392,12 +443,22 @@ func runConcurrent(rt *rapid.T, rec *ev.Rec, small bool, src nodeSource) {
 	if viol != "" {
 		rt.Fatalf("%s\nscenario: %s", viol, c.Descriptor())
 	}
+	stuck := ""
 	if !ok {
-		inconclusive(rt, rec, fmt.Sprintf("messages outstanding after %v: %s (peers connected: %v/%v; node logs: %s / %s)", deliverBudget, m.outstanding(),
-			p.n[0].Has(p.n[1].Pub), p.n[1].Has(p.n[0].Pub), p.n[0].Log.PeerErrors(), p.n[1].Log.PeerErrors()))
+		// "or not at all" is allowed by the property, so missing messages alone prove nothing - but a message that was
+		// swallowed (e.g. never terminated) may come out MERGED with the next message of its topic: send the fences anyway
+		// and judge what arrives against (still outstanding messages + fences) before calling the case inconclusive
+		stuck = fmt.Sprintf("messages outstanding after %v: %s (peers connected: %v/%v; node logs: %s / %s)", deliverBudget, m.outstanding(),
+			p.n[0].Has(p.n[1].Pub), p.n[1].Has(p.n[0].Pub), p.n[0].Log.PeerErrors(), p.n[1].Log.PeerErrors())
+		if !p.n[0].Has(p.n[1].Pub) || !p.n[1].Has(p.n[0].Pub) {
+			inconclusive(rt, rec, stuck)
+		}
 	}
 	// fence: one more message per topic and direction; nothing but the fences may arrive before them
 	fm := &matcher{want: map[key]int{}, topicOf: map[[32]byte][]string{}, pubs: m.pubs}
+	if stuck != "" {
+		fm = m // keep accepting the stragglers next to the fences
+	}
 	for d := 0; d < 2; d++ {
 		for _, t := range p2psim.AppTopics {
 			msg, bz := msgOfSize(^sc.seed, uint64(1000+int(t)*2+d), 24)
@@ -408,14 +469,24 @@ func runConcurrent(rt *rapid.T, rec *ev.Rec, small bool, src nodeSource) {
 		}
 	}
 	m = fm
-	ok = p2psim.WaitFor(deliverBudget, func() bool {
+	fenceBudget := deliverBudget
+	if stuck != "" {
+		fenceBudget = 15 * time.Second // the stragglers already had their time; the fences are small
+	}
+	ok = p2psim.WaitFor(fenceBudget, func() bool {
 		if viol = collect(); viol != "" {
 			return true
 		}
 		return m.left == 0
 	})
 	if viol != "" {
+		if stuck != "" {
+			rt.Fatalf("a delivery that is neither a sent message nor a fence (some sent messages never arrived: truncated / merged?): %s\n%s\nscenario: %s", viol, stuck, c.Descriptor())
+		}
 		rt.Fatalf("after every sent message had arrived, an extra delivery: %s\nscenario: %s", viol, c.Descriptor())
+	}
+	if stuck != "" {
+		inconclusive(rt, rec, stuck)
 	}
 	if !ok {
 		inconclusive(rt, rec, "fence messages outstanding: "+m.outstanding())
@@ -426,6 +497,10 @@ func runConcurrent(rt *rapid.T, rec *ev.Rec, small bool, src nodeSource) {
 	c.ClassIf(multi > 0, "multi-packet")
 	c.ClassIf(multi > 1, "multi-packet>=2")
 	c.ClassIf(sc.hot, "same-stream-multipacket-contention")
+	c.ClassIf(sc.flood, "same-stream-queue-flood")
+	if sc.flood {
+		c.Desc("flood:%d small senders x 300-600 single-packet messages on the big sender's stream", len(sc.senders)-1)
+	}
 	if small {
 		// race-detector variant: malformed traffic from a raw peer tears ITS connection down (from
 		// inside the receive service) while the honest connection stays; 1 in 5 after the connection has
